@@ -221,7 +221,16 @@ func HarnessC02Chain() {
 	data := map[string]any{"a": a, "b": b, "zero": 0, "one": 1}
 	var src, want string
 	fails := false
-	switch vChoice("shape", 13) {
+	switch vChoice("shape", 17) {
+	case 13: // object literals nested inside one another as a condition: the closing braces stand side by side
+		src, want = "@if({a: {b: 1}})x@end|", "x|"
+	case 14:
+		src = "@if(a)x@elseif({o: {}})y@end"
+		want = map[bool]string{true: "x", false: "y"}[a]
+	case 15:
+		src, want = "@if({a: {b: zero}}.a.b)x@end|", "|"
+	case 16:
+		src, want = "@each(v in [1, 2]){{ v }}@breakIf({a: {b: one}})@end", "1"
 	case 10: // an object literal with a failing entry as a condition
 		src = "@if(a)x@elseif({k: one, j: nope})y@else z@end"
 		want, fails = "x", !a
